@@ -9,6 +9,7 @@ CONSTANTS
   InputOps = {}
   Entries = {"run", "call", "evaluate"}
   TracerStyles = {"none"}
+  Threadeds = {FALSE}
   Flags = {"no_base_handler"}
 INVARIANT Restored
 INVARIANT Contained
